@@ -19,13 +19,19 @@
      - Integers computed by the builder (int(time())+timeout, hash_size, quorum_size, len(pubkeys)) are
        parameters.
      - "push ~! { push x<key> shake256 d<n> }" (make_single_sig_lock2, make_scripthash_lock,
-       make_htlc2_sha256_lock, make_htlc2_shake256_lock) runs the block on the VM at compile time; "~!" is outside the assembler model
-       (Unm).  For those builders the template is given AFTER parse_comptime, i.e. with the block
-       replaced by the symbol x<hex of the top stack item> (parsing.parse_comptime), the digest being a
-       parameter (the definitions named ..._ct_...).
-     - NOT covered: make_graftroot_lock ("@= k [ x<key> ]": the bracket form of set_variable is Unm),
-       make_graftroot_witness_surrogate / make_graftap_witness_scriptspend ("~!" with a signature
-       computed at compile time), the deprecated make_adapter_lock_pub / _prv. *)
+       make_htlc2_sha256_lock, make_htlc2_shake256_lock) runs the block on the VM at compile time: the
+       assembler model takes the VM as a parameter [ct] (model/Assembler.v).  For those builders the
+       template is given both AS WRITTEN ([..._toks] / [..._src]) and AFTER parse_comptime, i.e. with
+       the block replaced by the symbol x<hex of the top stack item>, the digest being a parameter
+       (the definitions named ..._ct_...); proofs/BuilderSourcesProofs.v connects the two whenever ct
+       of the assembled block returns the digest.
+     - make_single_sig_witness, make_taproot_witness_keyspend and make_scripthash_witness all end with the
+       one-push text push x<value> ([single_sig_witness_src] / [scripthash_witness_src]); the signing scripts that
+       the witness builders run first are not part of the returned Script.
+     - NOT covered: make_graftroot_lock ("@= k [ x<key> ]": the bracket form of set_variable is Unm in
+       model/Assembler.v; the text is given as [graftroot_lock_src] and shown to be Unm),
+       make_graftroot_witness_surrogate / make_graftap_witness_scriptspend ("push ~! { ... sign_stack }":
+       a signature computed at compile time), the deprecated make_adapter_lock_pub / make_adapter_lock_prv. *)
 From Coq Require Import ZArith List Bool String Ascii.
 From Coq.Strings Require Import Byte.
 From TS Require Import Bytes Asm Tokenizer.
@@ -96,6 +102,13 @@ Definition ts_between_lock_src (t1 t2 : Z) (ver : bool) : string := text_of (ts_
 Definition scripthash_lock_ct_toks (h : bytes) (n : Z) : list string :=
   ["dup"; "shake256"; D n; "push"; X h; "equal_verify"; "eval"].
 Definition scripthash_lock_ct_src (h : bytes) (n : Z) : string := text_of (scripthash_lock_ct_toks h n).
+(* the run-time block  ~! { push x<v> shake256 d<k> } *)
+Definition hash_block_toks (v : bytes) (k : Z) : list string :=
+  ["~!"; "{"; "push"; X v; "shake256"; D k; "}"].
+(* the text as written *)
+Definition scripthash_lock_toks (script : bytes) (n : Z) : list string :=
+  ["dup"; "shake256"; D n; "push"] ++ hash_block_toks script n ++ ["equal_verify"; "eval"].
+Definition scripthash_lock_src (script : bytes) (n : Z) : string := text_of (scripthash_lock_toks script n).
 Definition scripthash_witness_src (script : bytes) : string := text_of (push_toks script).
 
 (* ---------- PTLC / HTLC ----------
@@ -134,6 +147,20 @@ Definition htlc2_sha256_lock_ct_toks (digest hr : bytes) (ts : Z) (hf : bytes) (
 Definition htlc2_shake256_lock_ct_toks (n : Z) (digest hr : bytes) (ts : Z) (hf : bytes) (fl : byte)
   : list string :=
   "shake256" :: D n :: htlc2_tail_ct_toks n digest hr ts hf fl.
+(* the texts as written (rcv, refund: the public keys) *)
+Definition htlc2_tail_toks (k : Z) (digest rcv : bytes) (ts : Z) (refund : bytes) (fl : byte) : list string :=
+  ["push"; X digest] ++ W "equal if { dup shake256" ++ [D k; "push"] ++ hash_block_toks rcv k
+  ++ W "} else { push" ++ [D ts] ++ W "check_timestamp_verify dup shake256" ++ [D k; "push"]
+  ++ hash_block_toks refund k ++ W "} equal_verify check_sig" ++ [X [fl]].
+Definition htlc2_sha256_lock_toks (digest rcv : bytes) (ts : Z) (refund : bytes) (fl : byte) : list string :=
+  "sha256" :: htlc2_tail_toks 20 digest rcv ts refund fl.
+Definition htlc2_shake256_lock_toks (n : Z) (digest rcv : bytes) (ts : Z) (refund : bytes) (fl : byte)
+  : list string :=
+  "shake256" :: D n :: htlc2_tail_toks n digest rcv ts refund fl.
+Definition htlc2_sha256_lock_src (digest rcv : bytes) (ts : Z) (refund : bytes) (fl : byte) : string :=
+  text_of (htlc2_sha256_lock_toks digest rcv ts refund fl).
+Definition htlc2_shake256_lock_src (n : Z) (digest rcv : bytes) (ts : Z) (refund : bytes) (fl : byte) : string :=
+  text_of (htlc2_shake256_lock_toks n digest rcv ts refund fl).
 Definition htlc2_sha256_lock_ct_src (digest hr : bytes) (ts : Z) (hf : bytes) (fl : byte) : string :=
   text_of (htlc2_sha256_lock_ct_toks digest hr ts hf fl).
 Definition htlc2_shake256_lock_ct_src (n : Z) (digest hr : bytes) (ts : Z) (hf : bytes) (fl : byte) : string :=
